@@ -17,7 +17,7 @@ import operator
 
 import numpy as np
 
-from .alg import Poly, SC, SQ, UNKNOWN, is_unknown, is_number, P, UnknownTruth
+from .alg import Poly, SC, SQ, NQ, as_quat, UNKNOWN, is_unknown, is_number, P, UnknownTruth
 from .domain import BaseDomain, TypeModel, Opaque, wants_interp
 from .interp import ModelError, Unsupported, Instance
 
@@ -127,6 +127,14 @@ def sym_quat(name, shape):
     return SymArr(a, "quat")
 
 
+def sym_nq(name, shape):
+    """array of generator quaternions of the entry-level free *-algebra (see alg.NQ)"""
+    a = np.empty(shape, dtype=object)
+    for idx in itertools.product(*[range(s) for s in shape]):
+        a[idx] = NQ.gen(name + "_".join(str(i) for i in idx))
+    return SymArr(a, "quat")
+
+
 def labelled(tag, shape, kind="real"):
     a = np.empty(shape, dtype=object)
     for idx in itertools.product(*[range(s) for s in shape]):
@@ -135,6 +143,9 @@ def labelled(tag, shape, kind="real"):
 
 
 def elem_same(a, b):
+    if isinstance(a, NQ) or isinstance(b, NQ):
+        la, lb = NQ.lift(a), NQ.lift(b)
+        return la is not None and lb is not None and la.same(lb)
     if hasattr(a, "same"):
         return a.same(b)
     if hasattr(b, "same"):
@@ -160,7 +171,7 @@ def first_diff(a, b):
 
 
 def kind_of_value(v):
-    if isinstance(v, SQ):
+    if isinstance(v, (SQ, NQ)):
         return "quat"
     if isinstance(v, (SC, complex)):
         return "complex"
@@ -315,7 +326,7 @@ class SymDomain(BaseDomain):
             if dtype is not None and dtype_kind(dtype) not in (None, r.kind):
                 r = self._astype(r, dtype_kind(dtype))
             return r
-        if isinstance(obj, (Poly, SQ, SC)) or is_number(obj):
+        if isinstance(obj, (Poly, SQ, SC, NQ)) or is_number(obj):
             a = np.empty((), dtype=object)
             a[()] = obj
             return SymArr(a, kind_of_value(obj))
@@ -342,7 +353,7 @@ class SymDomain(BaseDomain):
             if kind == "quat":
                 flat = r.reshape(-1)
                 for i in range(flat.size):
-                    if not isinstance(flat[i], SQ):
+                    if not isinstance(flat[i], (SQ, NQ)):
                         flat[i] = SQ.lift(flat[i])
             return r
         if isinstance(obj, Opaque):
@@ -678,7 +689,7 @@ class SymDomain(BaseDomain):
         d = self
 
         def as_float_array(a):
-            if isinstance(a, SQ):
+            if isinstance(a, (SQ, NQ)):
                 return SymArr(np.array(list(a.c), dtype=object), "real")
             a = wrap(a)
             if a.kind != "quat":
@@ -739,7 +750,7 @@ class SymDomain(BaseDomain):
             if v.size == 1:
                 return self.truth(v.reshape(-1)[0])
             raise ModelError("The truth value of an array with more than one element is ambiguous")
-        if isinstance(v, (SQ, SC)):
+        if isinstance(v, (SQ, SC, NQ)):
             return UNKNOWN(("truth", v))
         if isinstance(v, (np.bool_,)):
             return bool(v)
@@ -867,7 +878,7 @@ class SymDomain(BaseDomain):
             return getattr(obj, attr)
         if isinstance(obj, SymArr):
             return self.arr_attr(obj, attr, node, interp)
-        if isinstance(obj, (Poly, SQ, SC)):
+        if isinstance(obj, (Poly, SQ, SC, NQ)):
             if attr in ("w", "x", "y", "z", "real", "imag", "conj", "conjugate", "abs", "norm", "inverse", "sqrt"):
                 if isinstance(obj, Poly) and attr in ("w", "x", "y", "z"):
                     raise ModelError(f"'float' object has no attribute {attr!r}")
@@ -1007,7 +1018,7 @@ class SymDomain(BaseDomain):
             elif isinstance(v, (list, tuple)):
                 vv = np.asarray(self.np_array(v), dtype=object)
             else:
-                if obj.kind == "quat" and not isinstance(v, SQ):
+                if obj.kind == "quat" and not isinstance(v, (SQ, NQ)):
                     v = SQ.lift(v) if SQ.lift(v) is not None else v
                 if obj.kind == "real" and isinstance(v, (SQ, SC)):
                     raise ModelError("cannot store a quaternion/complex value into a real array")
@@ -1019,7 +1030,7 @@ class SymDomain(BaseDomain):
                     raise ModelError(str(e))
                 return
             if obj.kind == "quat":
-                lift = np.frompyfunc(lambda x: x if isinstance(x, SQ) else SQ.lift(x), 1, 1)
+                lift = np.frompyfunc(lambda x: x if isinstance(x, (SQ, NQ)) else SQ.lift(x), 1, 1)
                 vv = lift(vv)
             elif obj.kind == "real":
                 for x in np.asarray(vv, dtype=object).reshape(-1)[:1]:
